@@ -1,25 +1,645 @@
-(* Proofs_C08.v — proofs about Model_C08 against Spec_C08. *)
+(* Proofs_C08.v — the candidate search never loses a matching package, yields no key twice, hence
+   a query is exactly the brute-force filter; sorted and stacked queries. *)
 From Coq Require Import List NArith ZArith Bool Sorting.Sorted Sorting.Permutation.
 Import ListNotations.
 From Verif Require Import Base.Val C06.Restr C06.RestrInd C06.Model_C06 C06.Proofs_C06
-  C08.Ord_C08 C08.Model_C08 C08.Spec_C08.
+  C08.Ord_C08 C08.Model_C08 C08.Spec_C08 C08.Dnf_C08.
 
-Lemma mem_str_In s l : mem_str s l = true <-> In s l.
+(* ================================================================== 2. small facts *)
+Lemma prefixb_refl s : prefixb s s = true.
+Proof. induction s as [|x s IH]; cbn; [reflexivity|]. now rewrite N.eqb_refl. Qed.
+Lemma substrb_refl s : substrb s s = true.
+Proof. destruct s; cbn; [reflexivity|]. now rewrite N.eqb_refl, prefixb_refl. Qed.
+
+Lemma assoc_in_keys {B} k (l : list (str * B)) : In k (map fst l) -> exists v, assoc k l = Some v.
 Proof.
-  unfold mem_str. rewrite existsb_exists. split.
-  - intros [x [Hin He]]. apply str_eqb_eq in He. now subst.
-  - intros H. exists s. split; [assumption|apply str_eqb_refl].
+  induction l as [|[k' v] l IH]; cbn; [tauto|]. intros H.
+  destruct (str_eqb k k') eqn:E; [eauto|]. destruct H as [<-|H]; [|auto].
+  rewrite str_eqb_refl in E. discriminate.
 Qed.
-Lemma dedup_In s l : In s (dedup l) <-> In s l.
+Lemma assoc_In {B} k (l : list (str * B)) v : assoc k l = Some v -> In (k, v) l.
 Proof.
-  induction l as [|x l IH]; cbn; [tauto|].
-  destruct (mem_str x l) eqn:E.
-  - rewrite IH. apply mem_str_In in E. split; [auto|]. intros [<-|H]; auto.
-  - cbn. rewrite IH. tauto.
+  induction l as [|[k' v'] l IH]; cbn; [discriminate|].
+  destruct (str_eqb k k') eqn:E; [|auto]. intros H. injection H as <-.
+  apply str_eqb_eq in E. subst. now left.
 Qed.
-Lemma dedup_NoDup_proof l : NoDup (dedup l).
+Lemma assoc_nodup {B} k (l : list (str * B)) v : NoDup (map fst l) -> In (k, v) l -> assoc k l = Some v.
 Proof.
-  induction l as [|x l IH]; cbn; [constructor|].
-  destruct (mem_str x l) eqn:E; [assumption|].
-  constructor; [|assumption]. rewrite dedup_In. intros H. apply mem_str_In in H. congruence.
+  induction l as [|[k' v'] l IH]; cbn; [tauto|]. intros Hnd H. inversion Hnd as [|? ? Hnot Hnd']; subst.
+  destruct H as [H|H].
+  - injection H as -> ->. now rewrite str_eqb_refl.
+  - destruct (str_eqb k k') eqn:E; [|auto]. apply str_eqb_eq in E. subst.
+    exfalso. apply Hnot. apply in_map_iff. exists (k', v). auto.
 Qed.
+
+Lemma has_cp_in R c p : In p (packages_get R c) -> has_cp R (c, p) = true.
+Proof.
+  unfold packages_get, has_cp. cbn [fst snd]. destruct (assoc c R) as [ps|]; [|intros []].
+  intros H. destruct (assoc_in_keys _ _ H) as [v ->]. reflexivity.
+Qed.
+Lemma in_cps_of R cats c p : In c cats -> In p (packages_get R c) -> In (c, p) (cps_of R cats).
+Proof.
+  intros Hc Hp. unfold cps_of. apply in_flat_map. exists c. split; [assumption|].
+  apply in_map. assumption.
+Qed.
+
+(* ================================================================== 3. the fast path *)
+Section Fast.
+  Variable w : world.
+  Variable R : repo.
+
+  Definition sel_ok (ms : list vmatch) (s : str) : Prop :=
+    ms = [] \/ exists m, In m ms /\ vm w m s = true.
+
+  Lemma any_match_intro ms sen s m : In m ms -> vm w m s = sen -> any_match w ms sen s = true.
+  Proof.
+    intros Hin Hv. unfold any_match. apply existsb_exists. exists m. split; [assumption|].
+    rewrite Hv. apply eqb_reflx.
+  Qed.
+  Lemma is_exact_inv m : is_exact m = true -> exists s, m = MExact s false.
+  Proof. destruct m as [s [|]| | |]; try discriminate. eauto. Qed.
+  Lemma exacts_In s ms : In s (exacts ms) <-> In (MExact s false) ms.
+  Proof.
+    unfold exacts. rewrite dedup_In, in_flat_map. split.
+    - intros [m [Hm Hs]]. destruct m as [s' [|]| | |]; try contradiction.
+      destruct Hs as [<-|[]]. assumption.
+    - intros H. exists (MExact s false). split; [assumption|now left].
+  Qed.
+  Lemma rest_In m ms : In m (rest ms) <-> In m ms /\ is_exact m = false.
+  Proof. unfold rest. rewrite filter_In. now rewrite negb_true_iff. Qed.
+  Lemma vm_exact s0 s : vm w (MExact s0 false) s = true -> s0 = s.
+  Proof. cbn. rewrite xorb_false_r. apply str_eqb_eq. Qed.
+
+  Lemma sel_single ms s s0 : sel_ok ms s -> exacts ms = [s0] -> rest ms = [] -> s = s0.
+  Proof.
+    intros [->|[m [Hin Hv]]] He Hr; [discriminate|].
+    destruct (is_exact m) eqn:E.
+    - apply is_exact_inv in E as [s1 ->]. apply vm_exact in Hv. subst s1.
+      apply exacts_In in Hin. rewrite He in Hin. destruct Hin as [<-|[]]. reflexivity.
+    - assert (H : In m (rest ms)) by (apply rest_In; auto). rewrite Hr in H. destruct H.
+  Qed.
+  Lemma sel_in_exact ms s : sel_ok ms s -> ms <> [] -> rest ms = [] -> In s (exacts ms).
+  Proof.
+    intros [->|[m [Hin Hv]]] Hne Hr; [congruence|].
+    destruct (is_exact m) eqn:E.
+    - apply is_exact_inv in E as [s1 ->]. apply vm_exact in Hv. subst s1. now apply exacts_In.
+    - assert (H : In m (rest ms)) by (apply rest_In; auto). rewrite Hr in H. destruct H.
+  Qed.
+  Lemma sel_rest ms s : sel_ok ms s -> ms <> [] -> exacts ms = [] -> any_match w (rest ms) true s = true.
+  Proof.
+    intros [->|[m [Hin Hv]]] Hne He; [congruence|].
+    destruct (is_exact m) eqn:E.
+    - apply is_exact_inv in E as [s1 ->]. apply exacts_In in Hin. rewrite He in Hin. destruct Hin.
+    - apply (any_match_intro _ _ _ m); [apply rest_In; auto|assumption].
+  Qed.
+  Lemma sel_filter ms s : sel_ok ms s -> ms <> [] ->
+    any_match w (rest ms ++ [MContain (exacts ms)]) true s = true.
+  Proof.
+    intros [->|[m [Hin Hv]]] Hne; [congruence|].
+    destruct (is_exact m) eqn:E.
+    - apply is_exact_inv in E as [s1 ->]. apply vm_exact in Hv. subst s1.
+      apply (any_match_intro _ _ _ (MContain (exacts ms))); [apply in_app_iff; right; now left|].
+      cbn. apply existsb_exists. exists s. split; [now apply exacts_In|apply substrb_refl].
+    - apply (any_match_intro _ _ _ m); [apply in_app_iff; left; apply rest_In; auto|assumption].
+  Qed.
+  Lemma exacts_nil_ne ms x l : exacts ms = x :: l -> ms <> [].
+  Proof. intros H ->. discriminate. Qed.
+  Lemma rest_nil_ne ms x l : rest ms = x :: l -> ms <> [].
+  Proof. intros H ->. discriminate. Qed.
+
+  Variables c p : str.
+  Hypothesis Hc : In c (categories R).
+  Hypothesis Hp : In p (packages_get R c).
+
+  Lemma fast_pkgs_sound pms cats pe pr : In c cats -> sel_ok pms p ->
+    pe = exacts pms -> pr = rest pms -> In (c, p) (fast_pkgs w R false cats pe pr).
+  Proof.
+    intros Hcat Hsel Hpe Hpr. unfold fast_pkgs, package_filter. cbn [negb].
+    destruct pe as [|p0 pe]; destruct pr as [|m pr].
+    - now apply in_cps_of.
+    - apply in_flat_map. exists c. split; [assumption|]. apply in_map. apply filter_In. split; [assumption|].
+      rewrite Hpr. apply sel_rest; auto. symmetry in Hpr. exact (rest_nil_ne _ _ _ Hpr).
+    - apply in_flat_map. exists c. split; [assumption|]. apply in_map. rewrite Hpe.
+      apply sel_in_exact; auto. symmetry in Hpe. exact (exacts_nil_ne _ _ _ Hpe).
+    - apply in_flat_map. exists c. split; [assumption|]. apply in_map. apply filter_In. split; [assumption|].
+      rewrite Hpe, Hpr. apply sel_filter; auto. symmetry in Hpr. exact (rest_nil_ne _ _ _ Hpr).
+  Qed.
+
+  Lemma fast_body_sound cms pms : sel_ok cms c -> sel_ok pms p ->
+    In (c, p) (fast_body w R false (exacts cms) (rest cms) (exacts pms) (rest pms)).
+  Proof.
+    intros Hsc Hsp. unfold fast_body.
+    destruct (exacts cms) as [|c0 ce] eqn:E1; destruct (rest cms) as [|m cr] eqn:E2.
+    - apply (fast_pkgs_sound pms); auto.
+    - apply (fast_pkgs_sound pms); auto. unfold cat_filter. apply filter_In. split; [assumption|].
+      cbn [negb]. rewrite <- E2. apply sel_rest; auto. exact (rest_nil_ne _ _ _ E2).
+    - destruct ce as [|c1 ce].
+      + assert (c = c0) by (apply (sel_single cms); assumption). subst c0.
+        destruct (rest pms) as [|pm pr] eqn:E3; destruct (exacts pms) as [|p0 [|p1 pe]] eqn:E4;
+          try (apply (fast_pkgs_sound pms); auto; now left).
+        assert (p = p0) by (apply (sel_single pms); assumption). subst p0.
+        rewrite (has_cp_in _ _ _ Hp). now left.
+      + apply (fast_pkgs_sound pms); auto. unfold cat_filter. apply filter_In. split; [assumption|].
+        cbn [negb]. pose proof (sel_filter cms c Hsc (exacts_nil_ne _ _ _ E1)) as H.
+        rewrite E1, E2 in H. exact H.
+    - apply (fast_pkgs_sound pms); auto. unfold cat_filter. apply filter_In. split; [assumption|].
+      cbn [negb]. pose proof (sel_filter cms c Hsc (exacts_nil_ne _ _ _ E1)) as H.
+      rewrite E1, E2 in H. exact H.
+  Qed.
+
+  Lemma fast_sound_pos r : rneg r = false ->
+    sel_ok (cat_ms w (pl false r)) c -> sel_ok (pkg_ms w (pl false r)) p -> In (c, p) (fast w R r).
+  Proof. intros Hn Hsc Hsp. unfold fast. rewrite Hn. now apply fast_body_sound. Qed.
+
+  Lemma fast_sound_nocoll r : pl false r = [] -> In (c, p) (fast w R r).
+  Proof.
+    intros H. unfold fast. rewrite H. cbn. destruct (rneg r); cbn; now apply in_cps_of.
+  Qed.
+End Fast.
+
+(* ================================================================== 4. candidates are complete *)
+Section Complete.
+  Variable w : world.
+  Variable R : repo.
+  Variable o : pobj.
+  Variables c p : str.
+  Hypothesis Hattr : has_attrs o = true.
+  Hypothesis Hkey : okey o = (c, p).
+  Hypothesis Hc : In c (categories R).
+  Hypothesis Hp : In p (packages_get R c).
+
+  Definition fcat (d : leafdesc) : list vmatch := match d with LCat m => [m] | _ => [] end.
+  Definition fpkg (d : leafdesc) : list vmatch := match d with LPkg m => [m] | _ => [] end.
+  Definition gms (f : leafdesc -> list vmatch) (l : list (bool * N)) : list vmatch :=
+    flat_map (fun x => f (info w (snd x))) l.
+  Definition reads (f : leafdesc -> list vmatch) (s : str) : Prop :=
+    forall i m, In m (f (info w i)) -> base w o i = vm w m s.
+
+  Lemma reads_cat : reads fcat c.
+  Proof.
+    intros i m Hm. unfold base. destruct o as [c' p' v|c' p'|c' p']; try discriminate;
+      cbn in Hkey; injection Hkey as -> ->; destruct (info w i); cbn in Hm; try contradiction;
+      destruct Hm as [<-|[]]; reflexivity.
+  Qed.
+  Lemma reads_pkg : reads fpkg p.
+  Proof.
+    intros i m Hm. unfold base. destruct o as [c' p' v|c' p'|c' p']; try discriminate;
+      cbn in Hkey; injection Hkey as -> ->; destruct (info w i); cbn in Hm; try contradiction;
+      destruct Hm as [<-|[]]; reflexivity.
+  Qed.
+
+  (* a collection all of whose leaves are un-negated and true at o *)
+  Definition all_true (coll : list (bool * N)) : Prop :=
+    forall x, In x coll -> fst x = false /\ base w o (snd x) = true.
+
+  Lemma all_true_gms f s coll : reads f s -> all_true coll ->
+    forall m, In m (gms f coll) -> vm w m s = true.
+  Proof.
+    intros Hr Ht m Hm. apply in_flat_map in Hm as [x [Hx Hm]].
+    rewrite <- (Hr _ _ Hm). exact (proj2 (Ht x Hx)).
+  Qed.
+  Lemma all_true_sel f s coll : reads f s -> all_true coll -> sel_ok w (gms f coll) s.
+  Proof.
+    intros Hr Ht. destruct (gms f coll) as [|m l] eqn:E; [now left|]. right. exists m. split; [now left|].
+    apply (all_true_gms f s coll Hr Ht). rewrite E. now left.
+  Qed.
+
+  Lemma fast_sound_all_true r : rneg r = false -> all_true (pl false r) -> In (c, p) (fast w R r).
+  Proof.
+    intros Hn Ht. apply fast_sound_pos; try assumption.
+    - exact (all_true_sel fcat c _ reads_cat Ht).
+    - exact (all_true_sel fpkg p _ reads_pkg Ht).
+  Qed.
+
+  (* the queried restriction is a lone wrapper-negated leaf *)
+  Lemma fast_sound_negleaf i : base w o i = false -> In (c, p) (fast w R (Leaf true i)).
+  Proof.
+    intros Hb. unfold fast. cbn [pl rneg andb cat_ms pkg_ms flat_map snd]. rewrite !app_nil_r.
+    destruct (info w i) as [m|m|k] eqn:Ei; cbn [rest filter fast_body].
+    - assert (Hv : vm w m c = false) by (rewrite <- (reads_cat i m); [assumption|rewrite Ei; now left]).
+      destruct (is_exact m); cbn [negb fast_body fast_pkgs].
+      + now apply in_cps_of.
+      + apply in_cps_of; [|assumption]. unfold cat_filter. apply filter_In. split; [assumption|].
+        apply (any_match_intro w _ _ _ m); [now left|assumption].
+    - assert (Hv : vm w m p = false) by (rewrite <- (reads_pkg i m); [assumption|rewrite Ei; now left]).
+      destruct (is_exact m); cbn [negb fast_body fast_pkgs].
+      + now apply in_cps_of.
+      + unfold package_filter. apply in_flat_map. exists c. split; [assumption|]. apply in_map.
+        apply filter_In. split; [assumption|]. apply (any_match_intro w _ _ _ m); [now left|assumption].
+    - now apply in_cps_of.
+  Qed.
+
+  (* --- the clause of the normal form that is true at o *)
+  Lemma clause_all_true r s cl : dnf true r = inl s -> In cl s ->
+    forallb (eval (base w o)) cl = true -> all_true (flat_map (pl true) cl).
+  Proof.
+    intros Hs Hcl Hev x Hx. apply in_flat_map in Hx as [lit [Hlit Hx]].
+    assert (Hshape : is_lit lit = true).
+    { apply (tree_lits_shape r). apply (dnf_lits_proof r s Hs). apply in_concat. eauto. }
+    rewrite forallb_forall in Hev. specialize (Hev lit Hlit).
+    destruct lit as [n i|b|r'|k n cs]; cbn [pl] in Hx; try contradiction.
+    - cbn [andb] in Hx. destruct n; [contradiction|]. destruct Hx as [<-|[]]. cbn [fst snd]. split; [reflexivity|].
+      cbn in Hev. now rewrite xorb_false_r in Hev.
+    - destruct k; try discriminate; destruct n; contradiction.
+  Qed.
+
+  (* every prunable leaf of the tree sits in some clause, and vice versa *)
+  Lemma clause_leaf_in_tree r s cl x : dnf true r = inl s -> In cl s ->
+    In x (flat_map (pl true) cl) -> In x (pl true r).
+  Proof.
+    intros Hs Hcl Hx. apply pl_tree_lits. apply in_flat_map in Hx as [lit [Hlit Hx]].
+    apply in_flat_map. exists lit. split; [|assumption].
+    apply (dnf_lits_proof r s Hs). apply in_concat. eauto.
+  Qed.
+  Lemma tree_leaf_in_clause r s x : dnf true r = inl s -> In x (pl true r) ->
+    exists cl, In cl s /\ In x (flat_map (pl true) cl).
+  Proof.
+    intros Hs Hx. apply pl_tree_lits in Hx. apply in_flat_map in Hx as [lit [Hlit Hx]].
+    apply (dnf_lits_proof r s Hs) in Hlit. apply in_concat in Hlit as [cl [Hcl Hlit]].
+    exists cl. split; [assumption|]. apply in_flat_map. eauto.
+  Qed.
+
+  (* --- the analysis of the normal form *)
+  Definition csel (f : leafdesc -> list vmatch) (cl : clause) : list vmatch :=
+    gms f (flat_map (pl true) cl).
+
+  Lemma true_clause_sel f s0 cl : reads f s0 -> all_true (flat_map (pl true) cl) ->
+    nonempty (csel f cl) = true -> exists m, In m (csel f cl) /\ vm w m s0 = true.
+  Proof.
+    intros Hr Ht Hne. destruct (csel f cl) as [|m l] eqn:E; [discriminate|].
+    exists m. split; [now left|]. apply (all_true_gms f s0 _ Hr Ht). fold (csel f cl). rewrite E. now left.
+  Qed.
+
+  Lemma tree_sel f s0 r s cl spec : reads f s0 -> dnf true r = inl s ->
+    (forall cl', In cl' s -> nonempty (csel f cl') = spec) ->
+    In cl s -> all_true (flat_map (pl true) cl) -> sel_ok w (gms f (pl true r)) s0.
+  Proof.
+    intros Hr Hs Hunif Hcl Ht. destruct (gms f (pl true r)) as [|m0 l0] eqn:E0; [now left|]. right.
+    assert (H0 : In m0 (gms f (pl true r))) by (rewrite E0; now left).
+    apply in_flat_map in H0 as [x [Hx Hm0]].
+    destruct (tree_leaf_in_clause r s x Hs Hx) as [cl' [Hcl' Hx']].
+    assert (Hspec : spec = true).
+    { rewrite <- (Hunif cl' Hcl'). destruct (csel f cl') eqn:E'; [|reflexivity]. exfalso.
+      assert (H1 : In m0 (csel f cl')) by (apply in_flat_map; eauto). rewrite E' in H1. destruct H1. }
+    destruct (true_clause_sel f s0 cl Hr Ht) as [m [Hm Hv]]; [rewrite (Hunif cl Hcl); assumption|].
+    exists m. split; [|assumption]. rewrite <- E0. apply in_flat_map in Hm as [y [Hy Hm]].
+    apply in_flat_map. exists y. split; [|assumption]. exact (clause_leaf_in_tree r s cl y Hs Hcl Hy).
+  Qed.
+
+  Lemma existsb_neq_false {A} (g : A -> bool) spec l :
+    existsb (fun x => negb (Bool.eqb (g x) spec)) l = false -> forall x, In x l -> g x = spec.
+  Proof.
+    intros H x Hx. apply existsb_false_Forall in H. rewrite Forall_forall in H.
+    specialize (H x Hx). apply negb_false_iff in H. now apply eqb_prop.
+  Qed.
+  Lemma existsb_neq_true {A} (g : A -> bool) (d0 : A) l :
+    existsb (fun x => negb (Bool.eqb (g x) (g d0))) l = true -> exists e, In e (d0 :: l) /\ g e = false.
+  Proof.
+    intros H. apply existsb_exists in H as [x [Hx Hne]]. apply negb_true_iff in Hne.
+    apply eqb_false_iff in Hne. destruct (g d0) eqn:E0.
+    - exists x. split; [now right|]. destruct (g x); congruence.
+    - exists d0. split; [now left|assumption].
+  Qed.
+
+  Lemma identify_dnf_sound k n chs cs :
+    matches w (Node k n chs) o = true -> identify_dnf w R (Node k n chs) = Some cs -> In (c, p) cs.
+  Proof.
+    set (r := Node k n chs). intros Hm Hid. unfold identify_dnf in Hid.
+    destruct (dnf true r) as [s|] eqn:Hs; [|discriminate].
+    pose proof (dnf_complete_proof (base w o) r s Hs Hm) as Hd. unfold eval_dnf in Hd.
+    apply existsb_exists in Hd as [cl [Hcl Hev]].
+    pose proof (clause_all_true r s cl Hs Hcl Hev) as Htrue.
+    assert (Hd_in : In (clause_cp w cl) (map (clause_cp w) s)) by (apply in_map; assumption).
+    destruct (existsb (fun x => negb (nonempty (fst x)) && negb (nonempty (snd x))) (map (clause_cp w) s)) eqn:Eall.
+    { injection Hid as <-. now apply in_cps_of. }
+    assert (Hnone : forall x, In x (map (clause_cp w) s) -> nonempty (fst x) = true \/ nonempty (snd x) = true).
+    { intros x Hx. apply existsb_false_Forall in Eall. rewrite Forall_forall in Eall. specialize (Eall x Hx).
+      destruct (nonempty (fst x)), (nonempty (snd x)); auto; discriminate. }
+    destruct (map (clause_cp w) s) as [|d0 tl] eqn:Eds; [discriminate|].
+    assert (Hback : forall cl', In cl' s -> In (clause_cp w cl') (d0 :: tl)) by (intros cl' H'; rewrite <- Eds; now apply in_map).
+    destruct (existsb (fun x => negb (Bool.eqb (nonempty (fst x)) (nonempty (fst d0)))) tl) eqn:Ec;
+      destruct (existsb (fun x => negb (Bool.eqb (nonempty (snd x)) (nonempty (snd d0)))) tl) eqn:Ep;
+      injection Hid as <-.
+    - now apply in_cps_of.
+    - (* some clause names no category; all name packages *)
+      assert (Hunif : forall x, In x (d0 :: tl) -> nonempty (snd x) = nonempty (snd d0)).
+      { intros x [<-|Hx]; [reflexivity|]. exact (existsb_neq_false (fun x => nonempty (snd x)) _ _ Ep x Hx). }
+      destruct (existsb_neq_true (fun x => nonempty (fst x)) d0 tl Ec) as [e [He Hef]].
+      destruct (Hnone e He) as [H|H]; [cbn beta in Hef; congruence|].
+      assert (Hspec : nonempty (snd d0) = true) by (rewrite <- (Hunif e He); exact H).
+      destruct (true_clause_sel fpkg p cl reads_pkg Htrue) as [m [Hmin Hv]].
+      { change (csel fpkg cl) with (snd (clause_cp w cl)). rewrite (Hunif _ Hd_in). exact Hspec. }
+      unfold package_filter. apply in_flat_map. exists c. split; [assumption|]. apply in_map.
+      apply filter_In. split; [assumption|]. cbn [negb].
+      apply (any_match_intro w _ _ _ m); [|assumption].
+      apply (proj2 (in_flat_map snd (d0 :: tl) m)). exists (clause_cp w cl). split; assumption.
+    - (* some clause names no package; all name categories *)
+      assert (Hunif : forall x, In x (d0 :: tl) -> nonempty (fst x) = nonempty (fst d0)).
+      { intros x [<-|Hx]; [reflexivity|]. exact (existsb_neq_false (fun x => nonempty (fst x)) _ _ Ec x Hx). }
+      destruct (existsb_neq_true (fun x => nonempty (snd x)) d0 tl Ep) as [e [He Hef]].
+      destruct (Hnone e He) as [H|H]; [|cbn beta in Hef; congruence].
+      assert (Hspec : nonempty (fst d0) = true) by (rewrite <- (Hunif e He); exact H).
+      destruct (true_clause_sel fcat c cl reads_cat Htrue) as [m [Hmin Hv]].
+      { change (csel fcat cl) with (fst (clause_cp w cl)). rewrite (Hunif _ Hd_in). exact Hspec. }
+      apply in_cps_of; [|assumption]. unfold cat_filter. apply filter_In. split; [assumption|]. cbn [negb].
+      apply (any_match_intro w _ _ _ m); [|assumption].
+      apply (proj2 (in_flat_map fst (d0 :: tl) m)). exists (clause_cp w cl). split; assumption.
+    - (* every clause names the same kinds: the fast path on the whole tree *)
+      destruct n.
+      + apply fast_sound_nocoll; try assumption. unfold r. cbn. destruct k; reflexivity.
+      + apply fast_sound_pos; try assumption; [reflexivity| |].
+        * change (pl false r) with (pl true r).
+          apply (tree_sel fcat c r s cl (nonempty (fst d0)) reads_cat Hs); try assumption.
+          intros cl' Hcl'. change (csel fcat cl') with (fst (clause_cp w cl')).
+          destruct (Hback cl' Hcl') as [<-|Hx]; [reflexivity|].
+          exact (existsb_neq_false (fun x => nonempty (fst x)) _ _ Ec _ Hx).
+        * change (pl false r) with (pl true r).
+          apply (tree_sel fpkg p r s cl (nonempty (snd d0)) reads_pkg Hs); try assumption.
+          intros cl' Hcl'. change (csel fpkg cl') with (snd (clause_cp w cl')).
+          destruct (Hback cl' Hcl') as [<-|Hx]; [reflexivity|].
+          exact (existsb_neq_false (fun x => nonempty (snd x)) _ _ Ep _ Hx).
+  Qed.
+
+  Lemma identify_sound r cs : flat_atom r = true ->
+    matches w r o = true -> identify w R r = Some cs -> In (c, p) cs.
+  Proof.
+    intros Hfa Hm Hid. destruct r as [n i|b|r'|k n chs].
+    - cbn [identify] in Hid. injection Hid as <-. unfold matches in Hm. cbn in Hm. destruct n.
+      + apply fast_sound_negleaf. destruct (base w o i); [discriminate|reflexivity].
+      + apply fast_sound_all_true; [reflexivity|]. intros x [<-|[]]. cbn. split; [reflexivity|].
+        now rewrite xorb_false_r in Hm.
+    - cbn [identify] in Hid. injection Hid as <-. now apply fast_sound_nocoll.
+    - cbn [identify] in Hid. injection Hid as <-. now apply fast_sound_nocoll.
+    - destruct k; try exact (identify_dnf_sound _ n chs cs Hm Hid).
+      cbn [identify] in Hid. injection Hid as <-. destruct n.
+      + now apply fast_sound_nocoll.
+      + apply fast_sound_all_true; [reflexivity|]. cbn [pl].
+        unfold matches in Hm. cbn [eval node_match] in Hm. rewrite eval_and, xorb_false_l in Hm.
+        cbn [flat_atom] in Hfa. rewrite forallb_forall in Hm, Hfa.
+        intros x Hx. apply in_flat_map in Hx as [ch [Hch Hx]].
+        specialize (Hm ch Hch). specialize (Hfa ch Hch).
+        destruct ch as [n i|b|r'|k n cs']; cbn in Hx; try contradiction; [|discriminate].
+        destruct n; [contradiction|]. destruct Hx as [<-|[]]. cbn. split; [reflexivity|].
+        cbn in Hm. now rewrite xorb_false_r in Hm.
+  Qed.
+
+  (* --- the atom shortcut of itermatch *)
+  Lemma first_some_leaf cat cs s : first_some (leaf_exact w cat) cs = Some s ->
+    exists i, In (Leaf false i) cs /\
+      info w i = (if cat then LCat (MExact s false) else LPkg (MExact s false)).
+  Proof.
+    induction cs as [|ch cs IH]; cbn; [discriminate|].
+    destruct (leaf_exact w cat ch) as [s'|] eqn:E.
+    - intros H. injection H as ->. destruct ch as [[|] i| | |]; try discriminate. cbn in E.
+      exists i. split; [now left|].
+      destruct (info w i) as [[s1 [|]| | |]|[s1 [|]| | |]|]; destruct cat; try discriminate; injection E as ->; reflexivity.
+    - intros H. destruct (IH H) as [i [Hi Hinfo]]. exists i. split; [now right|assumption].
+  Qed.
+
+  Lemma atom_key_sound r k : matches w r o = true -> atom_key w r = Some k -> k = (c, p).
+  Proof.
+    intros Hm Hk. destruct r as [| | |[] [] chs]; try discriminate. cbn in Hk.
+    destruct (first_some (leaf_exact w true) chs) as [c0|] eqn:Ec; [|discriminate].
+    destruct (first_some (leaf_exact w false) chs) as [p0|] eqn:Ep; [|discriminate].
+    injection Hk as <-. unfold matches in Hm. cbn [eval node_match] in Hm.
+    rewrite eval_and, xorb_false_l, forallb_forall in Hm.
+    destruct (first_some_leaf true chs c0 Ec) as [i [Hi Hinfo]].
+    destruct (first_some_leaf false chs p0 Ep) as [j [Hj Hjnfo]].
+    pose proof (Hm _ Hi) as H1. pose proof (Hm _ Hj) as H2. cbn in H1, H2. rewrite xorb_false_r in H1, H2.
+    rewrite (reads_cat i (MExact c0 false)) in H1 by (rewrite Hinfo; now left).
+    rewrite (reads_pkg j (MExact p0 false)) in H2 by (rewrite Hjnfo; now left).
+    apply vm_exact in H1. apply vm_exact in H2. now subst.
+  Qed.
+
+  Theorem candidates_complete_sec r cs : flat_atom r = true ->
+    matches w r o = true -> candidates w R r = Some cs -> In (c, p) cs.
+  Proof.
+    intros Hfa Hm Hc0. unfold candidates in Hc0. destruct (atom_key w r) as [k|] eqn:Ek.
+    - injection Hc0 as <-. left. exact (atom_key_sound r k Hm Ek).
+    - exact (identify_sound r cs Hfa Hm Hc0).
+  Qed.
+End Complete.
+
+(* ================================================================== 5. no key twice; exact answers *)
+Lemma NoDup_app' {A} (l1 l2 : list A) :
+  NoDup l1 -> NoDup l2 -> (forall x, In x l1 -> ~ In x l2) -> NoDup (l1 ++ l2).
+Proof.
+  induction l1 as [|a l1 IH]; cbn; intros H1 H2 Hd; [assumption|].
+  inversion H1; subst. constructor.
+  - rewrite in_app_iff. intros [H|H]; [contradiction|]. exact (Hd a (or_introl eq_refl) H).
+  - apply IH; auto.
+Qed.
+Lemma NoDup_map_inj {A B} (f : A -> B) l :
+  (forall x y, f x = f y -> x = y) -> NoDup l -> NoDup (map f l).
+Proof.
+  intros Hinj. induction 1 as [|a l Hn Hnd IH]; cbn; constructor; [|assumption].
+  intros H. apply in_map_iff in H as [y [Hy Hin]]. apply Hinj in Hy. now subst.
+Qed.
+Lemma NoDup_flat_map_key {A B} (f : A -> list B) (key : B -> A) l :
+  NoDup l -> (forall a, NoDup (f a)) -> (forall a x, In x (f a) -> key x = a) -> NoDup (flat_map f l).
+Proof.
+  intros Hl Hf Hk. induction Hl as [|a l Hn Hnd IH]; cbn; [constructor|].
+  apply NoDup_app'; auto. intros x Hx Hx'. apply in_flat_map in Hx' as [b [Hb Hxb]].
+  apply Hk in Hx. apply Hk in Hxb. congruence.
+Qed.
+Lemma NoDup_pairs {A B} (f : A -> list B) l :
+  NoDup l -> (forall a, NoDup (f a)) -> NoDup (flat_map (fun a => map (pair a) (f a)) l).
+Proof.
+  intros Hl Hf. apply (NoDup_flat_map_key _ fst); auto.
+  - intros a. apply NoDup_map_inj; [|auto]. intros x y H. now injection H.
+  - intros a x H. apply in_map_iff in H as [y [<- _]]. reflexivity.
+Qed.
+
+Section Exact.
+  Variable w : world.
+  Variable R : repo.
+  Hypothesis Hwf : repo_wf R.
+
+  Lemma nodup_categories : NoDup (categories R).
+  Proof. exact (proj1 Hwf). Qed.
+  Lemma wf_entry c ps : In (c, ps) R ->
+    NoDup (map fst ps) /\ Forall (fun pvs => NoDup (snd pvs)) ps.
+  Proof. intros H. destruct Hwf as [_ H2]. rewrite Forall_forall in H2. exact (H2 _ H). Qed.
+  Lemma nodup_packages c : NoDup (packages_get R c).
+  Proof.
+    unfold packages_get. destruct (assoc c R) as [ps|] eqn:E; [|constructor].
+    apply assoc_In in E. exact (proj1 (wf_entry _ _ E)).
+  Qed.
+  Lemma nodup_versions k : NoDup (versions_get R k).
+  Proof.
+    unfold versions_get. destruct (assoc (fst k) R) as [ps|] eqn:E; [|constructor].
+    destruct (assoc (snd k) ps) as [vs|] eqn:E2; [|constructor].
+    apply assoc_In in E. apply assoc_In in E2. destruct (wf_entry _ _ E) as [_ H].
+    rewrite Forall_forall in H. exact (H _ E2).
+  Qed.
+
+  Lemma nodup_cps_of cats : NoDup cats -> NoDup (cps_of R cats).
+  Proof. intros H. apply NoDup_pairs; [assumption|apply nodup_packages]. Qed.
+  Lemma nodup_package_filter cats ms neg : NoDup cats -> NoDup (package_filter w R cats ms neg).
+  Proof.
+    intros H. unfold package_filter.
+    apply (NoDup_pairs (fun c => filter (any_match w ms (negb neg)) (packages_get R c))); [assumption|].
+    intros c. apply NoDup_filter. apply nodup_packages.
+  Qed.
+  Lemma nodup_cat_filter ms neg : NoDup (cat_filter w R ms neg).
+  Proof. apply NoDup_filter. apply nodup_categories. Qed.
+
+  Lemma fast_pkgs_nodup neg cats pe pr : NoDup cats -> NoDup pe -> NoDup (fast_pkgs w R neg cats pe pr).
+  Proof.
+    intros Hc Hp. unfold fast_pkgs. destruct pe as [|p0 pe]; destruct pr as [|m pr].
+    - now apply nodup_cps_of.
+    - now apply nodup_package_filter.
+    - apply (NoDup_pairs (fun _ => p0 :: pe)); auto.
+    - now apply nodup_package_filter.
+  Qed.
+  Lemma fast_body_nodup neg ce cr pe pr : NoDup ce -> NoDup pe -> NoDup (fast_body w R neg ce cr pe pr).
+  Proof.
+    intros Hce Hpe. unfold fast_body.
+    assert (H1 : forall c0, NoDup [c0 : str]) by (intros; constructor; [intros []|constructor]).
+    destruct ce as [|c0 [|c1 ce]]; destruct cr as [|m cr];
+      try (apply fast_pkgs_nodup; auto using nodup_categories, nodup_cat_filter).
+    destruct pr as [|pm pr]; destruct pe as [|p0 [|p1 pe]]; try (apply fast_pkgs_nodup; auto).
+    destruct (has_cp R (c0, p0)); constructor; [intros []|constructor].
+  Qed.
+  Lemma fast_nodup r : NoDup (fast w R r).
+  Proof.
+    unfold fast. apply fast_body_nodup; destruct (rneg r); try constructor; apply dedup_NoDup_proof.
+  Qed.
+
+  Theorem candidates_nodup_sec r cs : candidates w R r = Some cs -> NoDup cs.
+  Proof.
+    unfold candidates. destruct (atom_key w r) as [k|].
+    - intros H. injection H as <-. constructor; [intros []|constructor].
+    - assert (Hd : identify_dnf w R r = Some cs -> NoDup cs).
+      { unfold identify_dnf. destruct (dnf true r) as [s|]; [|discriminate].
+        destruct (existsb _ (map (clause_cp w) s)).
+        - intros H. injection H as <-. apply nodup_cps_of, nodup_categories.
+        - destruct (map (clause_cp w) s) as [|d0 tl]; [discriminate|].
+          destruct (existsb _ tl); destruct (existsb _ tl); intros H; injection H as <-.
+          + apply nodup_cps_of, nodup_categories.
+          + apply nodup_package_filter, nodup_categories.
+          + apply nodup_cps_of, nodup_cat_filter.
+          + apply fast_nodup. }
+      destruct r as [n i|b|r'|k n chs]; cbn [identify];
+        try (intros H; injection H as <-; apply fast_nodup).
+      destruct k; try exact Hd. intros H; injection H as <-; apply fast_nodup.
+  Qed.
+
+  (* --- the universe of a mode, read back *)
+  Lemma universe_inv m o : In o (universe R m) ->
+    exists c ps p vs, In (c, ps) R /\ In (p, vs) ps /\ okey o = (c, p) /\
+      match m with
+      | MVersioned => exists v, o = PV c p v /\ In v vs
+      | MUnvCPV => o = PU c p /\ vs <> []
+      | MUnvTuple => o = PT c p /\ vs <> []
+      end.
+  Proof.
+    unfold universe. intros H. apply in_flat_map in H as [[c ps] [Hc H]].
+    apply in_flat_map in H as [[p vs] [Hp H]]. cbn [fst snd] in H.
+    exists c, ps, p, vs. split; [assumption|]. split; [assumption|]. destruct m.
+    - apply in_map_iff in H as [v [<- Hv]]. split; [reflexivity|eauto].
+    - destruct vs; [destruct H|]. destruct H as [<-|[]]. split; [reflexivity|]. split; [reflexivity|congruence].
+    - destruct vs; [destruct H|]. destruct H as [<-|[]]. split; [reflexivity|]. split; [reflexivity|congruence].
+  Qed.
+
+  Lemma expand_in m k o : In o (expand R m k) ->
+    okey o = k /\ In o (universe R m).
+  Proof.
+    destruct k as [c p]. unfold expand, versions_get. cbn [fst snd].
+    destruct (assoc c R) as [ps|] eqn:E1; [|destruct m; cbn; tauto].
+    destruct (assoc p ps) as [vs|] eqn:E2; [|destruct m; cbn; tauto].
+    apply assoc_In in E1. apply assoc_In in E2. intros H.
+    assert (Hu : forall o', (match m with
+                  | MVersioned => exists v, o' = PV c p v /\ In v vs
+                  | MUnvCPV => o' = PU c p /\ vs <> []
+                  | MUnvTuple => o' = PT c p /\ vs <> [] end) -> In o' (universe R m)).
+    { intros o' Ho'. unfold universe. apply in_flat_map. exists (c, ps). split; [assumption|].
+      apply in_flat_map. exists (p, vs). split; [assumption|]. cbn [fst snd]. destruct m.
+      - destruct Ho' as [v [-> Hv]]. now apply in_map.
+      - destruct Ho' as [-> Hne]. destruct vs; [congruence|now left].
+      - destruct Ho' as [-> Hne]. destruct vs; [congruence|now left]. }
+    destruct m.
+    - apply in_map_iff in H as [v [<- Hv]]. split; [reflexivity|]. apply Hu. eauto.
+    - destruct vs; [destruct H|]. destruct H as [<-|[]]. split; [reflexivity|]. apply Hu. split; [reflexivity|congruence].
+    - destruct vs; [destruct H|]. destruct H as [<-|[]]. split; [reflexivity|]. apply Hu. split; [reflexivity|congruence].
+  Qed.
+
+  Lemma universe_expand m o : In o (universe R m) ->
+    In o (expand R m (okey o)) /\ In (fst (okey o)) (categories R) /\
+    In (snd (okey o)) (packages_get R (fst (okey o))).
+  Proof.
+    intros H. destruct (universe_inv m o H) as [c [ps [p [vs [Hc [Hp [Hk Hm]]]]]]].
+    rewrite Hk. cbn [fst snd].
+    assert (E1 : assoc c R = Some ps) by (apply assoc_nodup; [exact (proj1 Hwf)|assumption]).
+    assert (E2 : assoc p ps = Some vs) by (apply assoc_nodup; [exact (proj1 (wf_entry _ _ Hc))|assumption]).
+    split; [|split].
+    - unfold expand, versions_get. cbn [fst snd]. rewrite E1, E2. destruct m.
+      + destruct Hm as [v [-> Hv]]. now apply in_map.
+      + destruct Hm as [-> Hne]. destruct vs; [congruence|now left].
+      + destruct Hm as [-> Hne]. destruct vs; [congruence|now left].
+    - unfold categories. apply in_map_iff. exists (c, ps). auto.
+    - unfold packages_get. rewrite E1. apply in_map_iff. exists (p, vs). auto.
+  Qed.
+
+  Lemma expand_nodup m k : NoDup (expand R m k).
+  Proof.
+    unfold expand. destruct m.
+    - apply NoDup_map_inj; [|apply nodup_versions]. intros x y H. now injection H.
+    - destruct (nonempty _); constructor; [intros []|constructor].
+    - destruct (nonempty _); constructor; [intros []|constructor].
+  Qed.
+
+  Theorem query_exact_sec m r got : flat_atom r = true -> m <> MUnvTuple ->
+    itermatch w R m r = Some got -> exact_answer got (brute w R m r).
+  Proof.
+    intros Hfa Hm Hq. unfold itermatch in Hq. destruct (candidates w R r) as [cs|] eqn:Ec; [|discriminate].
+    injection Hq as <-. split.
+    - apply NoDup_filter. apply (NoDup_flat_map_key _ okey).
+      + exact (candidates_nodup_sec r cs Ec).
+      + apply expand_nodup.
+      + intros k x Hx. exact (proj1 (expand_in m k x Hx)).
+    - intros o. unfold brute. rewrite !filter_In. split.
+      + intros [Hin Hmatch]. split; [|assumption]. apply in_flat_map in Hin as [k [_ Hin]].
+        exact (proj2 (expand_in m k o Hin)).
+      + intros [Hin Hmatch]. split; [|assumption].
+        destruct (universe_expand m o Hin) as [Hexp [Hcat Hpkg]].
+        apply in_flat_map. exists (okey o). split; [|assumption].
+        destruct (okey o) as [c p] eqn:Hk. cbn [fst snd] in *.
+        assert (Hattr : has_attrs o = true).
+        { destruct (universe_inv m o Hin) as [c' [ps [p' [vs [_ [_ [_ Ho]]]]]]].
+          destruct m; [destruct Ho as [v [-> _]]|destruct Ho as [-> _]|congruence]; reflexivity. }
+        exact (candidates_complete_sec w R o c p Hattr Hk Hcat Hpkg r cs Hfa Hmatch Ec).
+  Qed.
+
+  Theorem candidates_total_sec r : exists cs, candidates w R r = Some cs.
+  Proof.
+    unfold candidates. destruct (atom_key w r); [eauto|].
+    assert (Hd : exists cs, identify_dnf w R r = Some cs).
+    { unfold identify_dnf. destruct (dnf_never_refuses_proof true r) as [s [-> Hne]].
+      destruct (existsb _ (map (clause_cp w) s)); [eauto|].
+      destruct s as [|cl s]; [congruence|]. cbn [map].
+      destruct (existsb _ (map (clause_cp w) s)); destruct (existsb _ (map (clause_cp w) s)); eauto. }
+    destruct r as [n i|b|r'|k n chs]; cbn [identify]; eauto. destruct k; eauto.
+  Qed.
+End Exact.
+
+(* ================================================================== 6. closed forms for Prop_C08 *)
+Theorem candidates_complete_proof : forall w R r o c p cs,
+  flat_atom r = true -> has_attrs o = true -> okey o = (c, p) ->
+  In c (categories R) -> In p (packages_get R c) ->
+  matches w r o = true -> candidates w R r = Some cs -> In (c, p) cs.
+Proof. intros. eapply candidates_complete_sec; eauto. Qed.
+
+Theorem candidates_nodup_proof : forall w R r cs,
+  repo_wf R -> candidates w R r = Some cs -> NoDup cs.
+Proof. intros. eapply candidates_nodup_sec; eauto. Qed.
+
+Theorem query_never_raises_proof : forall w R m r, exists got, itermatch w R m r = Some got.
+Proof.
+  intros. unfold itermatch. destruct (candidates_total_sec w R r) as [cs ->]. eauto.
+Qed.
+
+Theorem query_exact_proof : forall w R m r got,
+  repo_wf R -> flat_atom r = true -> m <> MUnvTuple ->
+  itermatch w R m r = Some got -> exact_answer got (brute w R m r).
+Proof. intros. eapply query_exact_sec; eauto. Qed.
